@@ -181,9 +181,12 @@ def system_cases(ctx, n, thorough=False):
         th = rng.choice([1, 1, 2, 4, 7, 16])
         c = Case(recs, type_, pens[0], pens[1], pens[2], th, fmt, api if len(recs) < 90 else "file", evlog=(len(recs) <= 60))
         if c.api == "file" and rng.random() < 0.12 and all(s for _, s in recs):
-            # FASTA headers with free-text descriptions that mention other formats and tools (none of them is a format signature by itself)
+            # FASTA headers with free-text descriptions that mention other formats and tools, incl. the very words the format sniffer looks for
+            # (a file whose first record line starts with '>' is a FASTA file whatever its descriptions say; repaired in 8e76171)
             words = ["re-aligned from a CLUSTALW run", "CLUSTAL-Omega 1.2.4 output", "exported from MSF format", "PileUp of 12", "Clustal consensus", "see MSF file",
-                     "!!AA family 7", "multiple alignment seed", "kalign 3 reference", "GCG Check 1234"]
+                     "!!AA family 7", "multiple alignment seed", "kalign 3 reference", "GCG Check 1234",
+                     "from a CLUSTAL W (1.83) alignment", "CLUSTAL O(1.2.4) multiple sequence alignment", "was x.msf  MSF: 120  Type: P", "!!AA_MULTIPLE_ALIGNMENT 1.0",
+                     "!!NA_MULTIPLE_ALIGNMENT", "Kalign (3.3) multiple sequence alignment"]
             recs = [("%s %s" % (nm, rng.choice(words)) if rng.random() < 0.6 else nm, sq) for nm, sq in recs]
             c = Case(recs, type_, pens[0], pens[1], pens[2], th, "fasta", "file", evlog=False, tag="described headers")
         elif c.api == "file" and rng.random() < 0.3 and all(s for _, s in recs):
